@@ -184,6 +184,114 @@ def regenerate(repo=None, log=None):
         if log is not None:
             log.append("c16_xlate %s: %d translated, %d stubs%s%s" % (isa, len(TARGETS) - len(rep["stubs"]), len(rep["stubs"]),
                        " (file rewritten)" if rep["changed"] else "", (" STUBBED: " + ",".join(rep["stubs"])) if rep["stubs"] else ""))
+    try:
+        for isa, r in regenerate_hadd(repo, log).items():
+            reports["hadd_" + isa] = r
+    except Exception as e:
+        if log is not None: log.append("c16_xlate hadd: %s: %s" % (type(e).__name__, str(e)[:200]))
+    return reports
+
+
+# ------------------------------------------------------------------------------------------------------------------------------
+# FASTOR_USE_HADD (config/macros.h: a documented tuning macro): the horizontal helpers `_mm_sum_ps`, `_mm_sum_pd`, `_mm256_sum_ps`,
+# `_mm256_sum_pd` and `_add_pd(__m256d)` have a second, macro-selected body.  The same translation is run a second time with
+# -DFASTOR_USE_HADD and the definitions that matter here — the four helpers, the `_add_*` helpers and the 16 specialisations, with
+# everything they call — are written to Generated/C16Hadd_<isa>.lean in namespace Fastor.Gen.<isa>.hadd (self-contained: it
+# does not open Fastor.Gen.<isa>).  Same safety rule: test-built, typed stubs otherwise.
+HADD_HELPERS = {"mm_sum_ps": ("(fo : FOps) (a : Reg) : BitVec 32"), "mm_sum_pd": ("(fo : FOps) (a : Reg) : BitVec 64"),
+                "mm256_sum_ps": ("(fo : FOps) (a : Reg) : BitVec 32"), "mm256_sum_pd": ("(fo : FOps) (a : Reg) : BitVec 64")}
+
+
+def translate_hadd(isa, repo=None):
+    """-> (ordered list of (name, lean text)), missing dict"""
+    repo = repo or core.REPO
+    flags = core.ISA_FLAGS[isa]
+    try:
+        core.ISA_FLAGS[isa] = list(flags) + ["-DFASTOR_USE_HADD"]
+        base = X.preprocess(isa, repo)
+        extra = appended_sources(isa, repo)
+    finally:
+        core.ISA_FLAGS[isa] = flags
+    # `float s; ... _mm_store_ss(&s, E); return s;` (the HADD bodies of _mm_sum_ps / _mm_sum_pd) is `return _mm_cvtss_f32(E);`:
+    # the store writes lane 0 of E to the local that is returned (stores through pointers are outside the translator's grammar)
+    base = re.sub(r"\b(float|double)\s+(\w+)\s*;((?:(?!\breturn\b)[^{}]){0,400}?)_mm_store_(ss|sd)\(\s*&\2\s*,(.*?)\);\s*return\s+\2\s*;",
+                  lambda m: "%sreturn %s(%s);" % (m.group(3), "_mm_cvtss_f32" if m.group(4) == "ss" else "_mm_cvtsd_f64", m.group(5)), base, flags=re.S)
+    orig = X.preprocess
+    try:
+        X.preprocess = lambda i, r=None: base + "\nnamespace Fastor {\n" + extra + "\n}\n"
+        full, rep = X.translate(isa, repo)
+    finally:
+        X.preprocess = orig
+    # all definitions of the file, in order
+    blocks = []
+    for m in re.finditer(r"^(?:-- [^\n]*\n)?def (\S+) [^\n]*:=\n(?:  [^\n]*\n?)*", full, re.M):
+        blocks.append((m.group(1), m.group(0).rstrip("\n")))
+    names = {n for n, _ in blocks}
+    body_of = dict(blocks)
+    want = list(HADD_HELPERS) + ["h_add_ps", "h_add_pd", "h_add_ps_m256", "h_add_pd_m256d"]
+    rename = {}
+    for name in TARGETS:
+        src = ("h_" + name) if name.startswith("norm_") else ("h_norm_c16_" + name)
+        rename[src] = name; want.append(src)
+    need = set(); stack = [w for w in want if w in names]
+    while stack:
+        n = stack.pop()
+        if n in need: continue
+        need.add(n)
+        for tok in set(re.findall(r"[A-Za-z_][\w.]*", body_of[n].split(":=", 1)[1])):
+            if tok in names and tok not in need: stack.append(tok)
+    out = []; missing = {}
+    for n, txt in blocks:
+        if n not in need: continue
+        for src, dst in rename.items():
+            txt = re.sub(r"(?<![\w.])%s(?![\w.])" % re.escape(src), dst, txt)
+        out.append((rename.get(n, n), txt))
+    have = {n for n, _ in out}
+    for name in list(TARGETS) + list(HADD_HELPERS):
+        if name not in have: missing[name] = "not translated with -DFASTOR_USE_HADD"
+    return out, missing
+
+
+def hadd_sig(name):
+    return HADD_HELPERS[name] if name in HADD_HELPERS else lean_sig(name)
+
+
+def hadd_file_text(isa, defs, missing):
+    head = ("import FastorModel.Model.SimdIntrinsics\n"
+            "/-! GENERATED by props/c16_xlate.py (C16) through the C08 translator with -DFASTOR_USE_HADD, configuration `%s`: the macro-selected\n"
+            "    bodies of the horizontal helpers and the intrinsic specialisations of the reduction back ends that call them.  Regenerated by\n"
+            "    every check; do not edit.  Stubs (`-- UNTRANSLATED`, constant 0) where translation or type-checking failed. -/\n"
+            "set_option linter.unusedVariables false\n"
+            "namespace Fastor.Gen.%s.hadd\nopen Fastor.Simd\n\n" % (isa, isa))
+    blocks = [txt for _, txt in defs]
+    for name, why in missing.items():
+        blocks.append("-- UNTRANSLATED %s: %s\ndef %s %s := 0" % (name, why, name, hadd_sig(name)))
+    return head + "\n\n".join(blocks) + "\n\nend Fastor.Gen.%s.hadd\n" % isa
+
+
+def regenerate_hadd(repo=None, log=None):
+    reports = {}
+    for isa in ISAS:
+        p = os.path.join(X.GEN_DIR, "C16Hadd_%s.lean" % isa)
+        old = open(p).read() if os.path.exists(p) else None
+        allnames = list(TARGETS) + list(HADD_HELPERS)
+        try:
+            defs, missing = translate_hadd(isa, repo)
+        except Exception as e:
+            defs, missing = [], {n: "translator error %s: %s" % (type(e).__name__, str(e)[:120]) for n in allnames}
+        txt = hadd_file_text(isa, defs, missing)
+        rep = {"changed": old != txt, "stubs": sorted(missing), "translated": len(defs)}
+        if old != txt:
+            with open(p, "w") as fh: fh.write(txt)
+            rc, out = core.run(["lake", "build", "FastorModel.Generated.C16Hadd_%s" % isa], cwd=core.LEAN, timeout=3600)
+            if rc != 0:
+                missing = {n: "generated text did not type-check" for n in allnames}
+                with open(p, "w") as fh: fh.write(hadd_file_text(isa, [], missing))
+                core.run(["lake", "build", "FastorModel.Generated.C16Hadd_%s" % isa], cwd=core.LEAN, timeout=3600)
+                rep["stubs"] = sorted(missing); rep["build_error"] = out[-600:]
+        reports[isa] = rep
+        if log is not None:
+            log.append("c16_xlate hadd %s: %d definitions, %d stubs%s" % (isa, rep["translated"], len(rep["stubs"]), " (file rewritten)" if rep["changed"] else ""))
     return reports
 
 
